@@ -9,7 +9,8 @@ func isContext(t types.Type) bool {
 	}
 
 	o := named.Obj()
-	return o.Pkg().Path() == "context" && o.Name() == "Context"
+	// Predeclared types such as error have no package.
+	return o.Pkg() != nil && o.Pkg().Path() == "context" && o.Name() == "Context"
 }
 
 func isError(t types.Type) bool {
